@@ -182,6 +182,9 @@ def check_decision_points(ctx, m, rule, fnames):
                     return False
                 if isinstance(e, ast.Call) and call_name(e) == 'bool' and len(e.args) == 1:
                     return from_decision(e.args[0], at)
+                if e is dc:
+                    # the decision call itself, tested where it is made (`if self._is_allowed...(...) is True:`)
+                    return all(lh.stmt in at.loops for lh in loop_heads)
                 if isinstance(e, ast.Name):
                     defs = rd.reaching(at, e.id)
                     if not defs:
